@@ -390,6 +390,71 @@ func runC18(w *World, r *Report) {
 		r.ok("guarded-storage-stays-inside", "none", "-", "no function returns the storage of a written slice / map field")
 	}
 
+	// a read lock admits several holders at once: what runs under it must not write. A library container whose look-up
+	// rearranges its own bookkeeping (an LRU's Get moves the entry to the front) is a writer under a reader's lock
+	r.rule("read-lock-callees-do-not-write", "a method of a third-party or standard-library type that is called on a field of a repository struct with only a read lock held (R, not W, of a repository RWMutex) does not store into memory it reaches through its receiver — unless it takes a lock or uses atomics itself", 0)
+	{
+		liR := ComputeLocks(w, func(fn *ssa.Function) bool { return isRepoFunc(fn) })
+		nR, nBadR := 0, 0
+		for _, fn := range w.RepoFuncs() {
+			instrsOf(fn, func(in ssa.Instruction) {
+				c, ok := in.(ssa.CallInstruction)
+				if !ok {
+					return
+				}
+				cal := c.Common().StaticCallee()
+				if cal == nil || isRepoFunc(cal) || cal.Signature.Recv() == nil || len(c.Common().Args) == 0 {
+					return
+				}
+				// the receiver is (loaded from) a field of a repository struct
+				fromField := false
+				for _, o := range origins(c.Common().Args[0]) {
+					if u, ok := o.(*ssa.UnOp); ok {
+						if fa, ok := u.X.(*ssa.FieldAddr); ok && strings.HasPrefix(deref(fa.X.Type()).String(), modPath) {
+							fromField = true
+						}
+					}
+					if fa, ok := o.(*ssa.FieldAddr); ok && strings.HasPrefix(deref(fa.X.Type()).String(), modPath) {
+						fromField = true
+					}
+				}
+				if !fromField {
+					return
+				}
+				held := liR.At(in)
+				if held.top {
+					return
+				}
+				onlyRead := ""
+				for l := range held.m {
+					if strings.HasPrefix(l, "R:") && !held.m["W:"+l[2:]] {
+						onlyRead = l
+					}
+				}
+				hasW := false
+				for l := range held.m {
+					if strings.HasPrefix(l, "W:") {
+						hasW = true
+					}
+				}
+				if onlyRead == "" || hasW {
+					return
+				}
+				nR++
+				writes, locks := writesThroughReceiver(cal, 0, map[*ssa.Function]bool{})
+				if writes && !locks {
+					nBadR++
+					r.bad("read-lock-callees-do-not-write", shortFn(fn)+"/"+shortCallee(c), lineOf(w, c), "what is called under a read lock only reads",
+						fmt.Sprintf("%s stores into memory of its receiver and takes no lock of its own, and it is called here with only %s held: two holders of the read lock write the same memory", calleeName(c), onlyRead))
+				}
+			})
+		}
+		r.Extra["library_calls_under_read_lock"] = nR
+		if nBadR == 0 {
+			r.ok("read-lock-callees-do-not-write", "all", "-", fmt.Sprintf("%d library method calls on struct fields under a read lock examined, none writes through its receiver without a lock of its own", nR))
+		}
+	}
+
 	// memory that goes back into a pool is not handed out
 	r.rule("pooled-memory-stays-inside", "no function returns a value taken from a sync.Pool, or memory that value owns (the result of a method on it, a reslice), when it also puts the value back: the pool hands the object to the next Get on any goroutine, without any lock of the repository in between", 0)
 	nPool := 0
@@ -722,4 +787,122 @@ func pooledMemoryLeaks(w *World, fn *ssa.Function) []string {
 		}
 	}
 	return out
+}
+
+// writesThroughReceiver: does the library method fn (or a function it hands such memory to) store into memory reachable
+// from its receiver, without taking a lock of its own? Such a method is a writer even when its name says Get (an LRU
+// moves the entry to the front of its list on every hit).
+func writesThroughReceiver(fn *ssa.Function, depth int, seen map[*ssa.Function]bool) (writes bool, locks bool) {
+	return writesThroughParams(fn, map[int]bool{0: true}, depth, map[string]bool{})
+}
+
+// writesThroughParams: the same with an explicit set of parameters whose memory belongs to the shared object.
+func writesThroughParams(fn *ssa.Function, ownedParams map[int]bool, depth int, seen map[string]bool) (writes bool, locks bool) {
+	if fn == nil || len(fn.Blocks) == 0 || depth > 4 {
+		return false, false
+	}
+	key := fn.String()
+	for k := range fn.Params {
+		if ownedParams[k] {
+			key += fmt.Sprintf("/%d", k)
+		}
+	}
+	if seen[key] {
+		return false, false
+	}
+	seen[key] = true
+	owned := map[ssa.Value]bool{}
+	for k, p := range fn.Params {
+		if ownedParams[k] {
+			owned[p] = true
+		}
+	}
+	refLike := func(t types.Type) bool {
+		switch t.Underlying().(type) {
+		case *types.Pointer, *types.Map, *types.Slice, *types.Interface:
+			return true
+		}
+		return false
+	}
+	for changed := true; changed; {
+		changed = false
+		instrsOf(fn, func(in ssa.Instruction) {
+			v, ok := in.(ssa.Value)
+			if !ok || owned[v] {
+				return
+			}
+			mark := false
+			switch x := in.(type) {
+			case *ssa.FieldAddr:
+				mark = owned[x.X]
+			case *ssa.IndexAddr:
+				mark = owned[x.X]
+			case *ssa.UnOp:
+				mark = x.Op == token.MUL && owned[x.X] && refLike(x.Type())
+			case *ssa.Phi:
+				for _, e := range x.Edges {
+					if owned[e] {
+						mark = true
+					}
+				}
+			case *ssa.Field:
+				mark = owned[x.X] && refLike(x.Type())
+			case *ssa.Lookup:
+				mark = owned[x.X]
+			case *ssa.Extract:
+				mark = owned[x.Tuple] && refLike(x.Type())
+			case *ssa.TypeAssert:
+				mark = owned[x.X]
+			case *ssa.ChangeType:
+				mark = owned[x.X]
+			}
+			if mark {
+				owned[v] = true
+				changed = true
+			}
+		})
+	}
+	isParam := func(v ssa.Value) bool { _, ok := v.(*ssa.Parameter); return ok }
+	instrsOf(fn, func(in ssa.Instruction) {
+		switch x := in.(type) {
+		case *ssa.Store:
+			if owned[x.Addr] && !isParam(x.Addr) {
+				writes = true
+			}
+		case *ssa.MapUpdate:
+			if owned[x.Map] {
+				writes = true
+			}
+		case ssa.CallInstruction:
+			n := calleeName(x)
+			if strings.HasPrefix(n, "(*sync.Mutex).") || strings.HasPrefix(n, "(*sync.RWMutex).") || strings.HasPrefix(n, "sync/atomic.") || strings.HasPrefix(n, "(*sync/atomic.") {
+				locks = true
+				return
+			}
+			if b, ok := x.Common().Value.(*ssa.Builtin); ok {
+				if b.Name() == "delete" && len(x.Common().Args) > 0 && owned[x.Common().Args[0]] {
+					writes = true
+				}
+				return
+			}
+			if cal := x.Common().StaticCallee(); cal != nil {
+				sub := map[int]bool{}
+				for k, a := range x.Common().Args {
+					if owned[a] {
+						sub[k] = true
+					}
+				}
+				if len(sub) > 0 {
+					w2, l2 := writesThroughParams(cal, sub, depth+1, seen)
+					if w2 && !l2 {
+						writes = true
+					}
+					if l2 {
+						locks = true
+					}
+				}
+			}
+		}
+	})
+	return writes, locks
 }
